@@ -20,7 +20,8 @@ def rewrite_upload_imports(dst):
 
 def rewrite_upload_fault(dst):
     """C05, uploader half: as rewrite_upload_imports, plus "crypto/rand" of internal/upload (computeRandom) goes
-    through the fault-point shim vrand (import lines only)."""
+    through the fault-point shim vrand, and "sync" (the parse cache's mutex) through vsyncu, which turns a lock
+    attempt that can never succeed into an observed hang (import lines only)."""
     rewrite_upload_imports(dst)
     d = dst / "internal" / "upload"
     for p in d.glob("*.go"):
@@ -28,5 +29,6 @@ def rewrite_upload_fault(dst):
             continue
         t = p.read_text()
         t2 = t.replace('\t"crypto/rand"\n', '\trand "%svrand"\n' % SHIM)
+        t2 = t2.replace('\t"sync"\n', '\tsync "%svsyncu"\n' % SHIM)
         if t2 != t:
             p.write_text(t2)
